@@ -51,7 +51,7 @@ func init() {
 		pkgPath:   "github.com/yandex/pandora/components/providers/http/provider",
 		module:    "ProvLoops",
 		namespace: "Pandora.Gen.ProvLoops",
-		imports:   []string{"Pandora.Model.C08Mach", "Pandora.Model.C08Scan"},
+		imports:   []string{"Pandora.Model.C08Mach", "Pandora.Model.C08Scan", "Pandora.Model.C08Fault"},
 		extra:     provloopsExtra,
 	}
 }
@@ -757,6 +757,8 @@ func provloopsExtra(t *tr) string {
 		fmt.Fprintf(&b, "/-- regenerated from `lib/errutil/errutil.go` IsCtxError (`ctxErrIsCause` = `ctx.Err() == errors.Cause(err)`) -/\n"+
 			"def isCtxError (errNil ctxErrIsCause : Prop) [Decidable errNil] : Prop := %s\n\n", body)
 	}
+	// ------------------------------------------------------------ how Run ends: the deferred cleanups, path by path (round 3)
+	b.WriteString(provloopsFinish(t, load))
 	return b.String()
 }
 
